@@ -70,8 +70,4 @@ pub fn run(ctx: &mut Ctx, _args: &Args) {
         acc.flush(ctx);
         t(ctx, "otround", t0);
     }
-    ctx.sample(serde_json::json!({"kind": "Fixed mul", "case": "0x00018000 * 0x00018000 = 2.25 exactly -> 0x00024000"}));
-    ctx.sample(serde_json::json!({"kind": "Fixed div tie", "case": "0x00000001 / 0x00020000: exact 0.5 ulp -> rounds away from zero to 0x00000001"}));
-    ctx.sample(serde_json::json!({"kind": "Int24::new", "case": "0x00800000 saturates to 0x7fffff; checked_new gives None"}));
-    ctx.sample(serde_json::json!({"kind": "F2Dot14::from_f32", "case": "(v + 0.75) / 16384 must give v + 1 for every v"}));
 }
